@@ -11,6 +11,16 @@ CHECKS = {
          "trusts the harness's own casing code (gen/words.go) that renders Go identifiers from word lists, and its initialism list copy; identifiers with ambiguous initialism segmentation are skipped and counted",
          "DESIGN.md section 4 C19"),
 }
+CHECKS.update({
+ 'C04': ("porcupine linearizability check of recorded client-boundary histories + online validity sampler + in-Verify visibility assertion + exact error-callback monitor, under the Go race detector with seeded schedule perturbation at hook points",
+         "Real Dials instances are driven by sequential and concurrent histories of valid / Verify-invalid / ill-typed updates from 2-4 fake watching sources under all four Skip x Delay options while monitors judge every execution: every config observed through View/ViewVersion/Events/OnNewConfig/registered callbacks/the version-store hook is checked against the pure predicate while verification is active; Verify (harness code running on the monitor goroutine between compose and store) asserts its receiver is not yet visible; the report/read history is checked for linearizability against a ~40-line sequential model (rejected update: slot lingers, config and serial unchanged, error returned); in sequential histories each rejection must produce exactly one OnWatchedError(err, old==current pointer, new==rejected stack or nil). Held on the histories and interleavings produced, reported with counts.",
+         "trusts the sequential model (conc/linz.go), porcupine v1.3.0, the fake sources, and that callbacks are fast enough that the 64-slot queue does not overflow; -race reports with a dials frame are violations",
+         "DESIGN.md section 4 C04"),
+ 'C05': ("runtime differential monitor (incremental view vs fresh dials.Config over the latest values vs reference stack) + serial/pointer pairing monitor fed by readers, callbacks, Events and the version-store hook, under the race detector",
+         "Histories of 20-200 reports (sequential and concurrent phases, adversarial source orders, layers that unset fields again, empty layers, same-typed source instances) run against a real Dials; at quiescent points View() is compared with a brand-new dials.Config over static sources holding each source's latest value (or the last verified view when that stack fails) and with the independent reference stack; a monitor collects every (serial, config) pair seen anywhere: install serials contiguous from 1, pairing injective both ways, readers and Events never go backwards.",
+         "trusts the reference stack for the 8-leaf Cfg type and the mon.stored hook as the install log; concurrent phases are judged at fenced quiescent points only",
+         "DESIGN.md section 4 C05"),
+})
 NOT_YET = "check not yet built in this session (planned in DESIGN.md section 4; the technique applies)"
 
 def main():
